@@ -5,9 +5,11 @@ COMPONENTS = {
              "clap", "futures-util (buffered/FuturesOrdered)", "prost", "blake2", "brotli", "brotli-decompressor", "zstd", "rust-lzma", "bytes",
              "tokio 1.42.0 io-util (AsyncRead/Write/Seek, *Ext, io::copy)", "kernel tmpfs behind the syscall seam"],
     "port": ["tokio::fs::File / OpenOptions state machine (port of tokio 1.42.0 src/fs/file.rs + io/blocking.rs Buf)"],
-    "stub": ["tokio blocking pool, runtime, timers, stdin (simulator scheduler / virtual clock / scripted stdin)",
+    "stub": ["tokio blocking pool, runtime, timers, stdin (simulator scheduler / virtual clock / scripted stdin; pool closures are called in place, and run on helper threads "
+             "released one at a time -- virtual futex, virtual clock_gettime -- as soon as one of them has to wait for another thread)",
              "reqwest + hyper + TCP + web server (scripted fragment streams on the simulated network)",
-             "src/main.rs (dispatch re-implemented in the harness)", "process crash (stop the world at a syscall, keep files)",
+             "src/main.rs main() (argument fetch, Runtime::block_on and dispatch re-implemented in the harness; init_log()'s body is real and runs before every command, "
+             "the logger it would install is replaced by an in-memory one)", "process crash (stop the world at a syscall, keep files)",
              "block devices (regular files presented as S_IFBLK at statx/fstat, ENOSPC past the end)"],
 }
 
@@ -34,7 +36,8 @@ prop("C09", "exploration",
 prop("C01", "exploration",
      "each run draws (source, chunker configuration, compression, hash length, buffered-chunks, metadata), a writer (bita compress from a file / from stdin, bitar create_archive), "
      "a cloner (bita clone local / HTTP, library clone local / HTTP) and, per command, a schedule of the blocking pool (eagerness 0/10/50/90/100 %, FIFO or drawn order), "
-     "read fragmentation at the syscall seam / SimSource / stdin / HTTP body. No faults. Oracle: every command succeeds; the independent decoder reads the archive, finds the true size and "
+     "read fragmentation at the syscall seam / SimSource / stdin / HTTP body. One run in twelve is the fault-injecting configuration: a read of the source fails with EIO (drawn read call of the file, "
+     "drawn byte count on stdin / the library reader) and compress must not report success. Otherwise no faults. Oracle: every command succeeds; the independent decoder reads the archive, finds the true size and "
      "Blake2b-512 and unpacks it to the source; the clone output equals the source. Non-trivial: the source has at least two chunks; distinct: by trace hash (all scheduler decisions, reads, "
      "requests) combined with chunk count, writer and cloner.",
      {"quick": {"runs": 12000, "max_secs": 100}, "thorough": {"runs": 700000, "max_secs": 1200}},
@@ -42,7 +45,7 @@ prop("C01", "exploration",
 
 FAM = ("a drawn archive (as C01) plus drawn seeds (0..3: edits of the source -- insert/delete/replace/move/duplicate/truncate/append/swap --, the source itself, empty, unrelated, "
        "chunk-permuted), seed files and/or stdin in drawn order, a drawn prior output (absent / existing file / faked block device >= source; related, permuted, unrelated, shorter, longer), "
-       "--seed-output or not, through bita clone (syscall seam) or the library flow of examples/local-cloner.rs (SimFile/SimSource), local or simulated HTTP, under drawn pool schedules and read/body fragmentation; no faults. ")
+       "--seed-output or not (a third of the in-place CLI runs also pass --force-create, which must change nothing), through bita clone (syscall seam) or the library flow of examples/local-cloner.rs (SimFile/SimSource), local or simulated HTTP (a quarter with a generous --http-timeout, a fifth with --http-header credentials that the server insists on for every request), under drawn pool schedules and read/body fragmentation; no faults. ")
 
 prop("C02", "exploration",
      FAM + "Oracle: the clone succeeds and the output is byte-identical to the source (regular files also have the source's length). Truncated-hash collisions between different chunks (only possible for hash length < 8) are recognised and exempted. "
@@ -76,7 +79,7 @@ prop("C11", "exploration",
      {"quick": {"runs": 12000, "max_secs": 100}, "thorough": {"runs": 700000, "max_secs": 1200}})
 prop("C12", "exploration",
      "one (source, options) scenario is compressed 2..4 times by the CLI (file or stdin drawn each time) and 2..3 times by the library, each under an independently drawn pool schedule, buffered-chunks value in {1,2,3,8,64}, "
-     "verbosity and input fragmentation. Oracle: all archives of a writer are byte-identical. Non-trivial: the source is longer than one average chunk; distinct: trace hash + archive size + run counts.",
+     "verbosity and input fragmentation; a third of the library runs write to a tokio::fs::File and are judged by what is at the path when create_archive returns; one CLI run in five finds a stale, longer temporary chunk file of a killed earlier run under the name the first run was seen to use; one scenario in 25 keeps a chunk of hundreds of KiB open at the end of the input. Oracle: all archives of a writer are byte-identical. Non-trivial: the source is longer than one average chunk; distinct: trace hash + archive size + run counts.",
      {"quick": {"runs": 2500, "max_secs": 100}, "thorough": {"runs": 200000, "max_secs": 1200}})
 
 prop("C05", "fault_enumeration",
@@ -105,13 +108,13 @@ prop("C08", "fault_enumeration",
 prop("C14", "exploration",
      "the grid {output absent, regular file, block device >= source, block device < source} x {--force-create, --seed-output, neither} x {valid archive (with or without a matching --verify-header), random bytes, empty file, bit flip in the header, "
      "truncated header, --verify-header mismatch} x {local, HTTP} for clone, and {output absent, present} x {--force-create or not} for compress, is enumerated by a drawn cell index (148 cells; the evidence lists how often each refusal kind occurred); "
-     "archive, prior content, schedules drawn. Oracle for the four refusals the statement names: exit status non-zero; the output's bytes and length unchanged; no write / ftruncate / O_TRUNC on it at the syscall seam; for archive / header refusals the output path was never opened "
+     "archive, prior content, schedules drawn; one clone in four has a --seed, which may be the existing output itself. Oracle for the four refusals the statement names: exit status non-zero; the output's bytes and length unchanged; no write / ftruncate / O_TRUNC on it at the syscall seam; for archive / header refusals the output path was never opened "
      "(hence not created). Cells that must proceed must succeed with a correct output. Non-trivial: every run; distinct: trace hash + cell.",
      {"quick": {"runs": 12000, "max_secs": 100}, "thorough": {"runs": 400000, "max_secs": 1200}},
      ["header bit flips avoid the upper five bytes of the dictionary-size field (they make the reader attempt a petabyte allocation: C15's finding, fatal to a worker)"])
 prop("C16", "exploration",
      "2/3 of runs: bita clone in all modes of the clone family (plain, seed files, stdin seed, in place, local, HTTP, +-verify-output, existing output with --force-create, faked block device) observed at the syscall seam: "
-     "every open with O_WRONLY/O_RDWR/O_CREAT/O_TRUNC/O_APPEND names the output path, no unlink/rename/mkdir, no truncate of another file, and the listing (names, sizes, Blake2) of the sandbox changed only at the output path. "
+     "(one in eight with the existing output also named as a --seed, under its own or another spelling; init_log runs before each command, so a log sink that opens a file is seen too) every open with O_WRONLY/O_RDWR/O_CREAT/O_TRUNC/O_APPEND names the output path, no unlink/rename/mkdir, no truncate of another file, and the listing (names, sizes, Blake2) of the sandbox changed only at the output path. "
      "1/3: bita compress (file / stdin, +-force, output names with and without extension and in a subdirectory): only the archive and its '.tmp' sibling are opened for writing, only that temp file is removed, and a successful run leaves exactly one new file. "
      "Non-trivial: at least three file-system events; distinct: trace hash + shape.",
      {"quick": {"runs": 8000, "max_secs": 100}, "thorough": {"runs": 400000, "max_secs": 1200}},
@@ -121,7 +124,7 @@ prop("C04", "fault_enumeration",
      "fault kind: corruption of stored bytes after creation, and lying servers. Mode A (1/3 of runs): a small archive (source <= 400 B, hash length >= 8, library writer) and EVERY single-bit flip (except the upper five bytes of the dictionary-size field) and EVERY truncation length of it "
      "(exhaustive when the archive is <= 1400 B / 4096 B in the thorough tier, else 512 + 128 sampled), each cloned through the library. Mode B (2/3): one scenario of the clone family (CLI or library, seeds, in place, local or HTTP, +-verify-output) and one drawn corruption: "
      "bit flip (anywhere / header / payload), multi-byte overwrite, swap of two stored chunk payloads, trailing garbage, truncation, header re-encoded with one changed field and a recomputed checksum while --verify-header carries the original, "
-     "a server answering one request with a flipped bit / an error page of the requested length / a short body, --verify-header off by one bit, --verify-header right (control). "
+     "a server answering one request with a flipped bit / an error page of the requested length / a short body, a server going silent mid-body with --http-timeout set, a header re-encoded with one changed field and the file cut off inside the stored header checksum, --verify-header off by one bit, --verify-header right (control). "
      "Oracle: the clone does not exit 0, or the output equals the source; a change inside the header is never followed by success and (CLI) the output path is never opened; with --verify-header X success implies the real header checksum is X; "
      "StepBudget/Deadlock are violations, panics are counted and left to C15. Non-trivial: > 100 corruptions tried (A) / any corruption other than the control (B); distinct: trace hash + shape.",
      {"quick": {"runs": 3000, "max_secs": 100}, "thorough": {"runs": 200000, "max_secs": 1500}},
